@@ -111,7 +111,7 @@ fn parse_check(buf: &[u8]) {
     }
 }
 
-// @props C15 C06
+// @props C15 C06:thorough
 // @tier quick
 // @fns StringFormatOptions::parse, consume_u32
 // @bound format specs in UTF-8 shape [1] over {< ^ > 0 1 9 . ? x e close-brace space a} and 2-byte slots {U+00E9, U+0301}
@@ -145,7 +145,7 @@ fn c15_fmt_parse_s11() {
     parse_check(&b);
 }
 
-// @props C15 C06
+// @props C15 C06:thorough
 // @tier quick
 // @fns StringFormatOptions::parse, consume_u32
 // @bound format specs in UTF-8 shape [1,1,1] over {< ^ > 0 1 9 . ? x e close-brace space a} and 2-byte slots {U+00E9, U+0301}
@@ -162,7 +162,7 @@ fn c15_fmt_parse_s111() {
     parse_check(&b);
 }
 
-// @props C15 C06
+// @props C15 C06:thorough
 // @tier quick
 // @fns StringFormatOptions::parse, consume_u32
 // @bound format specs in UTF-8 shape [2,1,1] over {< ^ > 0 1 9 . ? x e close-brace space a} and 2-byte slots {U+00E9, U+0301}
